@@ -31,7 +31,7 @@ def buffer_events(f, owner_re):
     """calls that change the emptiness of a client's _sendBuffer: (node, effect)"""
     out = []
     for i in q.calls(f):
-        t = f.r(i)
+        t = q.no_casts(f.r(i))
         m = re.match(r"^(%s)_sendBuffer\.(append|free|removeFront|clear|assign|resize|prepend|swap|attach|removeBack)\(" % owner_re, t)
         if m:
             out.append((i, m.group(2)))
@@ -109,7 +109,7 @@ def run(prog, chk):
             OBJ = ("*" + base_) if me_.get("arrow") else base_
     okd = False
     if len(dr) == 1:
-        args = [q.no_casts(run_.r(x)) for x in q.call_args(run_, dr[0])]
+        args = [q.no_casts(q.xr(run_, x)) for x in q.call_args(run_, dr[0])]      # sizes kept in a local are expanded
         p = run_.up(dr[0])
         while p is not None and run_.nodes[p]["k"] != "DeclStmt":
             p = run_.up(p)
